@@ -12,8 +12,11 @@ package life
 
 import (
 	"fmt"
+	"os"
+	"path/filepath"
 	"strings"
 	"sync"
+	"time"
 
 	"github.com/Shopify/sarama"
 )
@@ -27,6 +30,7 @@ type Rec struct {
 	mark   int64
 	lines  []string
 	tp     map[string]int64 // topic/partition -> partition consumer id (most recently started)
+	born   map[string]bool  // "<component>/<id>": objects whose creation event was seen in this scenario
 	panics []string
 	closed bool
 }
@@ -37,7 +41,7 @@ func Begin(tag string) *Rec {
 	if IDMark == nil {
 		return nil
 	}
-	r := &Rec{tag: tag, mark: IDMark(), tp: map[string]int64{}}
+	r := &Rec{tag: tag, mark: IDMark(), tp: map[string]int64{}, born: map[string]bool{}}
 	sarama.PanicHandler = func(v interface{}) {
 		r.mu.Lock()
 		r.panics = append(r.panics, fmt.Sprint(v))
@@ -58,6 +62,21 @@ var idValued = map[string]bool{
 	"pc.input.send": true, "pc.unref": true, "pc.feeder.send": true, "pc.trigger.close": true, "pc.trigger.send": true,
 	"cons.child.add": true, "cons.child.remove": true, "bc.sub.add": true,
 	"sess.start": true, "sess.offsets.close": true, "pom.new": true, "pom.errors.close": true, "cli.broker.close": true,
+}
+
+// creation lists the events that introduce an object. Events of a partition consumer, broker worker, session, POM
+// or broker connection whose creation was not seen in this scenario are dropped: they belong to goroutines of an
+// earlier scenario of this process that never finished (that scenario was reported as a hang).
+var creation = map[string]bool{"pc.start": true, "bc.new": true, "sess.start": true, "pom.new": true, "br.open": true}
+
+func component(ev string) string {
+	if i := strings.IndexByte(ev, '.'); i > 0 {
+		switch ev[:i] {
+		case "pc", "bc", "sess", "pom", "br":
+			return ev[:i]
+		}
+	}
+	return ""
 }
 
 // Event is the VerifSinkKV callback.
@@ -82,6 +101,14 @@ func (r *Rec) Event(kind, key string, a, b int64) {
 				return
 			}
 			b -= r.mark
+		}
+		if c := component(ev); c != "" {
+			k := fmt.Sprintf("%s/%d", c, a)
+			if creation[ev] {
+				r.born[k] = true
+			} else if !r.born[k] {
+				return
+			}
 		}
 		if ev == "pc.start" {
 			r.tp[fmt.Sprintf("%s/%d", key, b)] = a
@@ -127,4 +154,41 @@ func ReplaySeed(fields []string, prefix string) (uint64, bool) {
 		}
 	}
 	return 0, false
+}
+
+// Breadcrumb notes the scenario a worker process is about to run (empty = none), so that the supervising process
+// can name it when the worker dies (a panic in a goroutine nobody can recover from) and the watchdog can name it
+// when it never finishes.
+func Breadcrumb(outDir, scenario string) {
+	if IDMark == nil || outDir == "" {
+		return
+	}
+	crumbMu.Lock()
+	crumb, crumbSince = scenario, time.Now()
+	crumbMu.Unlock()
+	_ = os.WriteFile(filepath.Join(outDir, "current.txt"), []byte(scenario), 0o644)
+}
+
+var (
+	crumbMu    sync.Mutex
+	crumb      string
+	crumbSince time.Time
+)
+
+// Watchdog calls stuck(scenario) once when one scenario has been running for longer than limit (every wait inside a
+// scenario is bounded by 8 s, so this means the scenario's own tear-down is wedged - e.g. a connection that can no
+// longer be closed). stuck is expected to record the failure, flush and end the process.
+func Watchdog(limit time.Duration, stuck func(scenario string, d time.Duration)) {
+	go func() {
+		for {
+			time.Sleep(500 * time.Millisecond)
+			crumbMu.Lock()
+			sc, since := crumb, crumbSince
+			crumbMu.Unlock()
+			if sc != "" && time.Since(since) > limit {
+				stuck(sc, time.Since(since))
+				return
+			}
+		}
+	}()
 }
